@@ -62,7 +62,7 @@ def trivial(line, res):
 
 RULE = ('Circle/Ellipse integer part: correspondence of contains() over box+margin and points() between extracted model and code for all '
         'diameters 0..N as circle and as equal-axes ellipse (N=16 quick, 40 thorough) and random axis pairs (thin/flat included). '
-        'search: on the code, for ALL diameters 0..48/128 and ALL axis pairs up to 24/64 (+ random up to 200 / 300): half-pixel band '
+        'search (every predicate on three observations: the set contains() accepts over box+margin, the list points() yields, the fill-only styled pixels()): on the code, for ALL diameters 0..48/128 and ALL axis pairs up to 24/64 (+ random up to 200 / 300): half-pixel band '
         'against the ideal circle/ellipse in exact integer arithmetic, mirror symmetry, row and column contiguity, circle touches its box, '
         'circle == equal-axes ellipse for contains() and points(). non-trivial = the shape has a point.')
 EXHAUSTIVE = {'quick': False, 'thorough': False}
